@@ -5,6 +5,7 @@ import (
 	"fmt"
 	"net/url"
 	"os"
+	"runtime"
 	"sync"
 	"sync/atomic"
 	"time"
@@ -17,6 +18,7 @@ import (
 	"verif/harness/internal/core"
 	"verif/harness/internal/mon"
 	"verif/harness/internal/sched"
+	"verif/harness/internal/vconn"
 )
 
 // C16 - No data race under any concurrent use the API permits.
@@ -64,6 +66,7 @@ func init() {
 				// one run and the starting one of the next overlap
 				add("c03", rep, c03Params{Kind: "immediate-restart", Workers: 2, Cycles: tierPick(tier, 3000, 20000)}, 600)
 				add("c03", rep, c03Params{Kind: "api-while-stopping", Workers: 4, Cycles: tierPick(tier, 20, 60)}, 600)
+				add("signal-across-restart", rep, struct{ Rounds int }{tierPick(tier, 60, 300)}, 600)
 				add("c04", rep, c04Params{Kind: "concurrent", Workers: 8, N: tierPick(tier, 1200, 4000)}, 600)
 				add("c08", rep, c08Params{Kind: "concurrent", Shard: rep, N: tierPick(tier, 1200, 4000)}, 600)
 				add("c11", rep, c11Params{Kind: "concurrent", Store: storeKind{Impl: "badger", Typed: rep%2 == 0, Prefix: "r"}, Histories: tierPick(tier, 6, 20)}, 900)
@@ -108,6 +111,10 @@ func c16Run(c *core.Ctx, b core.Batch) {
 		c15Run(c, sub)
 	case "combined":
 		c16Combined(c, sub, p.Rep)
+	case "signal-across-restart":
+		var sp struct{ Rounds int }
+		json.Unmarshal(p.Sub, &sp)
+		c16SignalAcrossRestart(c, sp.Rounds)
 	}
 	// one evaluation per race-instrumented execution
 	c.Obs("evaluations", -c16Evals(c)+1)
@@ -395,4 +402,75 @@ func maxInt(a, b int) int {
 		return a
 	}
 	return b
+}
+
+// c16SignalAcrossRestart: a With call has put its callback into the work queue and is about
+// to wake a worker when the service is stopped and served again. The wake-up then happens
+// in the next run, while that run sets itself up - everything the late goroutine touches
+// must be synchronised with the starting Serve.
+func c16SignalAcrossRestart(c *core.Ctx, rounds int) {
+	rigInstall()
+	for round := 0; round < rounds; round++ {
+		rg := newRig("svc", func(s *res.Service) {
+			s.SetWorkerCount(1 + round%3)
+			s.Handle("g.$id", res.Access(res.AccessGranted), res.GetModel(func(r res.ModelRequest) { r.Model(map[string]int{"a": 1}) }))
+		})
+		rg.C.NoGoID = true
+		if err := rg.start(); err != nil {
+			c.Inconclusive("start: " + err.Error())
+			return
+		}
+		wid := fmt.Sprintf("svc.g.%d", round)
+		gate := sched.Arm("runWith.queued", func(arg interface{}) bool { w, _ := arg.(string); return w == wid })
+		withRet := make(chan struct{})
+		go func() {
+			defer close(withRet)
+			rg.S.With(wid, func(res.Resource) {})
+		}()
+		if !gate.WaitArrived(10 * time.Second) {
+			gate.Release()
+			c.Inconclusive("signal-across-restart: With did not reach the point after queueing")
+			rg.stop()
+			return
+		}
+		if err := rg.stop(); err != nil {
+			gate.Release()
+			c.Inconclusive("signal-across-restart: Shutdown: " + err.Error())
+			return
+		}
+		// the next run starts while the late goroutine goes on
+		rg.C = vconn.New()
+		rg.C.NoGoID = true
+		rg.serveRet = make(chan error, 1)
+		rg.served = make(chan struct{})
+		var once sync.Once
+		rg.S.SetOnServe(func(*res.Service) { once.Do(func() { close(rg.served) }) })
+		go func() { rg.serveRet <- rg.S.Serve(rg.C) }()
+		if round%2 == 1 {
+			runtime.Gosched()
+		}
+		gate.Release()
+		c.Obs("late_signals_into_a_starting_run", 1)
+		if !waitCh(withRet, 10*time.Second) {
+			c.Inconclusive("signal-across-restart: With did not return")
+			return
+		}
+		select {
+		case <-rg.served:
+		case err := <-rg.serveRet:
+			c.Inconclusive(fmt.Sprintf("signal-across-restart: second Serve returned %v", err))
+			return
+		case <-time.After(20 * time.Second):
+			c.Inconclusive("signal-across-restart: second Serve did not start")
+			return
+		}
+		// the second run serves
+		inbox, done, n := rg.send("get."+wid, nil)
+		if n != 1 || !waitCh(done, 10*time.Second) {
+			c.Inconclusive("signal-across-restart: request to the second run not processed")
+			return
+		}
+		_ = inbox
+		rg.stop()
+	}
 }
